@@ -80,5 +80,6 @@ YS_GLUE(shr)
         const yorel::yomm2::detail::compiler<P>&, const char*);
 YS_GLUE_TW(tw_dbg)
 YS_GLUE_TW(tw_rel)
+YS_GLUE_TW(cw_policy)
 
 } // namespace ys
